@@ -4,6 +4,7 @@
 // for VOL additionally the destination is still absent, or byte-identical to the sentinel.
 #include "common.h"
 #include "../models/refclm.h"
+#include "../models/refvol.h"
 #include "Archive/ClmFile.h"
 #include "Archive/VolFile.h"
 #include "Sprite/ArtFile.h"
@@ -33,6 +34,12 @@ const std::vector<Case>& cases() {
 		{"vol-total", {0x7fffff00ull, 0x7fffff00ull, 0x200, 5}, false, 0},
 		{"vol-total", {G, G, G, G, 3}, false, 0},
 		{"vol-total", {0x7ffffffbull, 0x7ffffffbull, 1}, false, 0},
+		// the LAST member's block offset lands exactly on / just beyond 2^32 (arg = distance beyond 2^32; ~0 = one word short of
+		// 2^32 + header length, the last offset a header-relative computation would still see as fitting)
+		{"vol-edge", {}, false, 0},
+		{"vol-edge", {}, false, 4},
+		{"vol-edge", {}, false, 64},
+		{"vol-edge", {}, false, ~0ull},
 		// the LAST track's data offset is beyond 2^32
 		{"clm-total", {G + G / 2, G + G / 2, G + G / 2, 10}, false, 0},
 		{"clm-total", {0x7fffff00ull, 0x7fffff00ull, 0x400, 5}, false, 0},
@@ -48,6 +55,7 @@ const std::vector<Case>& cases() {
 		{"prt-layers", {}, false, 0},     // every layer-list length 0..130 against every 7-bit count
 		// at-limit quantities that fit (context only: success is not asserted, an over-eager refusal is not a C20 violation)
 		{"vol-member", {(1ull << 31) - 1}, true, 0},
+		{"vol-edge", {}, true, static_cast<uint64_t>(-4)}, // last block offset 2^32 - 4: representable
 		{"clm-name", {}, true, 8},
 		{"prefix", {}, true, 255},
 		{"prefix", {}, true, 65535},
@@ -101,11 +109,25 @@ struct Limits : Family {
 			if (c.fits) ctx.count(o == OkOut ? "probe.at_limit_fit_succeeded" : "probe.at_limit_fit_refused");
 			else ctx.count("probe.refused_" + kind);
 		};
-		if (kind == "vol-member" || kind == "vol-total") {
+		if (kind == "vol-member" || kind == "vol-total" || kind == "vol-edge") {
 			std::vector<std::string> list;
-			for (size_t i = 0; i < c.sizes.size(); ++i) {
-				std::string nm = "_in/" + std::string(1, static_cast<char>('a' + i)) + randName(r, 1, 9, false) + ".bin";
-				disk::putSparse(nm, c.sizes[i]);
+			std::vector<uint64_t> sizes = c.sizes;
+			std::vector<std::string> names;
+			if (kind == "vol-edge") {
+				// three members a < b < c; the header length follows from the names (independent VOL description), and b's size is
+				// chosen so that c's block offset is exactly the target
+				std::vector<ref::VolMember> ms(3);
+				for (size_t i = 0; i < 3; ++i) { names.push_back(std::string(1, static_cast<char>('a' + i)) + randName(r, 1, 9, false) + ".bin"); ms[i].name = names[i]; }
+				uint64_t H = ref::encodeVol(ms).headerEnd;
+				uint64_t a = 0x7ffffff0ull;
+				uint64_t target = (1ull << 32) + (c.arg == ~0ull ? H - 4 : c.arg);
+				uint64_t b = target - H - 16 - a;
+				if (b >= (1ull << 31) || (b & 3)) throw std::runtime_error("vol-edge: member size out of the intended range");
+				sizes = {a, b, 5};
+			}
+			for (size_t i = 0; i < sizes.size(); ++i) {
+				std::string nm = "_in/" + (names.empty() ? std::string(1, static_cast<char>('a' + i)) + randName(r, 1, 9, false) + ".bin" : names[i]);
+				disk::putSparse(nm, sizes[i]);
 				list.push_back(nm);
 			}
 			Rng pr(perm);
@@ -115,7 +137,8 @@ struct Limits : Family {
 			auto before = disk::snapshot();
 			Out o = callLib(plan, [&] { Archive::VolFile::CreateArchive(out, list); }, &what);
 			std::string desc = "VolFile::CreateArchive with member sizes";
-			for (auto s : c.sizes) desc += " " + std::to_string(s);
+			for (auto s : sizes) desc += " " + std::to_string(s);
+			if (kind == "vol-edge") desc += " (last block offset 2^32" + std::string(static_cast<int64_t>(c.arg) < 0 && c.arg != ~0ull ? " - 4" : c.arg == ~0ull ? " + header length - 4" : " + " + std::to_string(c.arg)) + ")";
 			refuseOrFit(o, desc);
 			if (!c.fits) {
 				std::string diff = disk::snapshotDiff(before, disk::snapshot());
